@@ -5,7 +5,7 @@ from __future__ import annotations
 import ast
 
 from .. import AnalysisError
-from ..astutil import Deps, is_name
+from ..astutil import Deps, is_name, unwrap
 from ..cfg import CFG
 from ..engine import Analysis
 from ..kinds import NOVALUE, both, forwards_varargs, normal_only, scenario, strict, vararg_names
@@ -218,8 +218,18 @@ def check(an: Analysis) -> None:
         else:
             ob.inst(ot, sets[0].ast)
             a = sets[0].ast.args[0] if sets[0].ast.args else None  # type: ignore[union-attr]
-            t = a.func if isinstance(a, ast.Call) else a
-            if not (t is not None and (dotted(t) or "").rsplit(".", 1)[-1] == "TimeoutError"):
+
+            def timeout_error(x: ast.AST | None, depth: int = 3) -> bool:
+                x = unwrap(x)
+                if isinstance(x, ast.IfExp) and depth > 0:  # every alternative must be a TimeoutError
+                    return timeout_error(x.body, depth - 1) and timeout_error(x.orelse, depth - 1)
+                if isinstance(x, ast.Name) and depth > 0:
+                    vals = [v for k, v in Deps(prog, ot).defs(ot, x.id) if k == "value"]
+                    return bool(vals) and len(vals) == len(Deps(prog, ot).defs(ot, x.id)) and all(timeout_error(v, depth - 1) for v in vals)
+                t = x.func if isinstance(x, ast.Call) else x
+                return t is not None and (dotted(t) or "").rsplit(".", 1)[-1] == "TimeoutError"
+
+            if not timeout_error(a):
                 ob.fail(ot, sets[0].ast, "the deadline is not reported as TimeoutError")
 
             def env(done: bool):
